@@ -132,16 +132,168 @@ def r26a(ctx, P):
     ctx.floor(rid, n, 10, "raw-pointer parameters of the extern \"C\" functions")
 
 
+LT, LE, TOP = 0, 1, 2      # value < buf_cap | value <= buf_cap | unknown   (all under buf_cap >= 1, which R26.c establishes)
+CLS_NAME = {LT: "< buf_cap", LE: "<= buf_cap", TOP: "unbounded"}
+WRITE_COUNT_CALLS = {"core::ptr::copy_nonoverlapping": (1, 2), "core::ptr::copy": (1, 2),
+                     "core::ptr::mut_ptr::<impl *mut T>::write_bytes": (0, 2), "core::ptr::write_bytes": (0, 2),
+                     "core::ptr::mut_ptr::<impl *mut T>::copy_from_nonoverlapping": (0, 2),
+                     "core::ptr::mut_ptr::<impl *mut T>::copy_from": (0, 2)}
+WRITE_ONE_CALLS = ("core::ptr::write", "core::ptr::mut_ptr::<impl *mut T>::write", "core::ptr::write_volatile",
+                   "core::ptr::write_unaligned", "core::ptr::mut_ptr::<impl *mut T>::write_volatile",
+                   "core::ptr::mut_ptr::<impl *mut T>::write_unaligned", "core::ptr::replace", "core::ptr::swap")
+PTR_NEUTRAL = ("::is_null", "::cast", "::cast_mut", "::cast_const", "::addr")
+
+
+class Bounds:
+    """Tiny abstract interpretation of usize locals of one body against the capacity parameter: each local is classified
+    `< cap`, `<= cap` or unknown from ALL of its definitions (fixpoint from the optimistic end), under the fact cap >= 1."""
+
+    def __init__(self, f, cap):
+        self.f, self.cap = f, cap
+        self.cls = {}
+        defs = f.defs()
+        self.locals = [l for l in defs if "usize" in f.local_ty(l) or "(usize, bool)" in f.local_ty(l)]
+        for l in self.locals:
+            self.cls[l] = LT
+        self.cls[cap] = LE
+        for _ in range(4 * len(self.locals) + 8):
+            changed = False
+            for l in self.locals:
+                if l == cap:
+                    continue
+                v = LT
+                for d in defs.get(l, []):
+                    v = max(v, self.of_def(d))
+                if 1 <= l <= f.arg_count:
+                    v = TOP
+                if v != self.cls[l]:
+                    self.cls[l] = v
+                    changed = True
+            if not changed:
+                break
+
+    def of_operand(self, o):
+        c = op_const(o) if isinstance(o, dict) else None
+        if c is not None:
+            return LT if c.get("int") == 0 else TOP
+        pl = op_place(o)
+        if pl is None:
+            return TOP
+        if not pl["p"]:
+            return self.cls.get(pl["l"], TOP)
+        # `.0` of a checked-arithmetic pair
+        if len(pl["p"]) == 1 and isinstance(pl["p"][0], dict) and pl["p"][0].get("i") == 0:
+            return self.cls.get(pl["l"], TOP)
+        return TOP
+
+    def nonzero_guarded(self, operand, block):
+        """`operand` (a local) is known to be >= 1 in `block`: a dominating test `x > 0`, `x != 0`, `0 < x`, or the false arm of `x == 0`."""
+        f = self.f
+        l = op_local(operand)
+        if l is None:
+            return False
+        names = {l}
+        for d in f.defs().get(l, []):
+            if d["k"] == "assign" and d["rv"]["k"] == "use" and op_local(d["rv"]["a"]) is not None:
+                names.add(op_local(d["rv"]["a"]))
+        for b in f.reachable():
+            t = f.blocks[b]["term"]
+            if t["k"] != "switch":
+                continue
+            for d in f.defs().get(op_local(t["on"]), []):
+                if d["k"] != "assign" or d["rv"]["k"] != "binop":
+                    continue
+                op, x, y = d["rv"]["op"], d["rv"]["a"], d["rv"]["b"]
+
+                def is_x(o):
+                    ol = op_local(o)
+                    if ol in names:
+                        return True
+                    return any(dd["k"] == "assign" and dd["rv"]["k"] == "use" and op_local(dd["rv"]["a"]) in names for dd in f.defs().get(ol, [])) if ol is not None else False
+
+                def is_zero(o):
+                    c = op_const(o)
+                    return c is not None and c.get("int") == 0
+                vals = dict(zip(t["values"], t["targets"]))
+                true_succ = t["otherwise"] if 0 in vals else vals.get(1)
+                false_succ = vals.get(0)
+                good = None
+                if (op == "Gt" and is_x(x) and is_zero(y)) or (op == "Lt" and is_zero(x) and is_x(y)) or (op == "Ne" and ((is_x(x) and is_zero(y)) or (is_zero(x) and is_x(y)))):
+                    good = true_succ
+                elif op == "Eq" and ((is_x(x) and is_zero(y)) or (is_zero(x) and is_x(y))):
+                    good = false_succ
+                if good is not None and f.dominates_block(good, block) and block not in (f.reachable_from(true_succ if good == false_succ else false_succ, stop=[good]) if (true_succ is not None and false_succ is not None) else ()):
+                    return True
+        return False
+
+    def of_def(self, d):
+        f = self.f
+        if d.get("partial"):
+            return TOP
+        if d["k"] == "call":
+            t = d["t"]
+            cal = callee_of(t)
+            a = t["args"]
+            if cal.endswith(("Ord::min", "::min")) and len(a) == 2:
+                return min(self.of_operand(a[0]), self.of_operand(a[1]))
+            if cal.endswith("::saturating_sub") and len(a) == 2:
+                c = op_const(a[1])
+                base = self.of_operand(a[0])
+                if c is not None and (c.get("int") or 0) >= 1 and base == LE:
+                    return LT
+                return base
+            if cal.endswith(("::clamp",)) and len(a) == 3:
+                return self.of_operand(a[2])
+            return TOP
+        rv = d["rv"]
+        k = rv["k"]
+        if k in ("use", "cast"):
+            if k == "cast" and "usize" not in f.local_ty(d["dst"]["l"]):
+                return TOP
+            return self.of_operand(rv["a"])
+        if k == "binop":
+            op = rv["op"]
+            ca, cb = op_const(rv["a"]), op_const(rv["b"])
+            if op in ("Add", "AddWithOverflow", "AddUnchecked"):
+                for x, c in ((rv["a"], cb), (rv["b"], ca)):
+                    if c is not None:
+                        base = self.of_operand(x)
+                        if c.get("int") == 0:
+                            return base
+                        if c.get("int") == 1 and base == LT:
+                            return LE
+                return TOP
+            if op in ("Sub", "SubWithOverflow", "SubUnchecked"):
+                base = self.of_operand(rv["a"])
+                if cb is not None and cb.get("int") == 0:
+                    return base
+                # wraps in release when the minuend is 0: needs a dominating non-zero test
+                if cb is not None and cb.get("int") == 1 and self.nonzero_guarded(rv["a"], d["b"]):
+                    return LT if base in (LT, LE) else TOP
+                return TOP
+            if op in ("BitAnd",):
+                return min(self.of_operand(rv["a"]), self.of_operand(rv["b"]))
+            if op in ("Shr", "Div") :
+                return self.of_operand(rv["a"])
+            return TOP
+        return TOP
+
+
 def r26bcd(ctx, P):
     f = P.fn(FFI + "::searchlite_search")
     if not ctx.anchor("R26.b", f, "searchlite_search"):
         return
     ctx.saw(f)
-    ctx.rule("R26.b", "FLOW: the count of ptr::copy_nonoverlapping and the offset of the NUL store are the same local, defined as "
-                      "Ord::min(bytes.len(), usize::saturating_sub(buf_cap, k>=1)); the copy source is bytes.as_ptr() of the same slice; "
-                      "the destination derives from the output-buffer parameter; the function returns that same local")
-    ctx.rule("R26.c", "GUARD: no other write through the output-buffer parameter exists, and every write is dominated by the false arm "
-                      "of a `buf_cap == 0` test")
+    ctx.rule("R26.b", "BOUND (abstract interpretation against buf_cap, not a source shape): every write through the output-buffer parameter "
+                      "is enumerated — stores through the pointer or through ptr::add/offset results, copy_nonoverlapping / copy / "
+                      "write_bytes counts, ptr::write, and slices made by from_raw_parts_mut (whose own accesses Rust bounds-checks) — and "
+                      "each extent is classified from ALL definitions of the locals involved (min, saturating_sub, +1, guarded -1, copies; "
+                      "a local redefined in a loop gets the join): offsets must be `< buf_cap`, counts and slice lengths `<= buf_cap`. "
+                      "Any other call that receives the output pointer is an unrecognised write. The copied bytes come from the encoded "
+                      "response without an offset, a zero byte is stored at the position equal to the copied count, and that count is "
+                      "what the function returns")
+    ctx.rule("R26.c", "GUARD: every write through the output-buffer parameter is dominated by the false arm of a `buf_cap == 0` test "
+                      "(the bound classes of R26.b assume buf_cap >= 1)")
     ctx.rule("R26.d", "every other definition of the return value is a constant that is zero or negative")
     sl = Slice(f)
     sla = Slice(f, through_all_calls=True)
@@ -151,107 +303,217 @@ def r26bcd(ctx, P):
     if not (ctx.anchor("R26.b", out_params, "output buffer parameter (*mut c_char)") and ctx.anchor("R26.b", cap_params, "buf_cap parameter")):
         return
     outp, cap = out_params[-1], cap_params[0]
-    uses, aliases = uses_of_param(f, outp, sl, params)
-    copies = [(b, t) for b, t in f.calls() if callee_of(t) == "core::ptr::copy_nonoverlapping" and op_local(t["args"][1]) in aliases]
-    stores = [(s, h) for (s, h) in uses if h == "store"]
-    adds = [(b, t) for b, t in f.calls() if callee_of(t).endswith("mut_ptr::<impl *mut T>::add") and op_local(t["args"][0]) in aliases]
+    defs = f.defs()
+    B = Bounds(f, cap)
 
+    # --- pointer aliases: base (offset 0) and offset pointers {local: offset operand}
+    base = {outp}
+    offs = {}
+    changed = True
+    while changed:
+        changed = False
+        for l, dfs in defs.items():
+            if l in base or l in offs or not f.local_ty(l).startswith(("*mut ", "*const ")):
+                continue
+            for d in dfs:
+                if d["k"] == "assign" and not d["partial"] and d["rv"]["k"] in ("use", "cast") and op_local(d["rv"]["a"]) in base:
+                    base.add(l); changed = True
+                elif d["k"] == "assign" and not d["partial"] and d["rv"]["k"] in ("use", "cast") and op_local(d["rv"]["a"]) in offs:
+                    offs[l] = offs[op_local(d["rv"]["a"])]; changed = True
+                elif d["k"] == "call" and d["t"]["args"] and op_local(d["t"]["args"][0]) in base:
+                    cal = callee_of(d["t"])
+                    if cal.endswith(PTR_NEUTRAL[1:]):
+                        base.add(l); changed = True
+                    elif cal.endswith(("::add", "::wrapping_add")) and len(d["t"]["args"]) == 2:
+                        offs[l] = d["t"]["args"][1]; changed = True
     def root(o):
         l = op_local(o)
         seen = set()
         while l is not None and l not in seen:
             seen.add(l)
-            dfs = [d for d in f.defs().get(l, []) if not d["partial"]]
+            dfs = [d for d in defs.get(l, []) if not d["partial"]]
             if f.locals[l].get("name") or len(dfs) != 1 or dfs[0]["k"] != "assign":
                 return l
             rv = dfs[0]["rv"]
             if rv["k"] in ("use", "cast"):
-                l = op_local(rv["a"])
+                nl = op_local(rv["a"])
+                if nl is None:
+                    return l
+                l = nl
             elif rv["k"] == "ref" and rv["place"]["p"] in ([], ["deref"]):
                 l = rv["place"]["l"]
             else:
                 return l
         return l
 
-    ok_b = False
-    why = "no copy_nonoverlapping into the output buffer found"
-    len_local = None
-    if len(copies) == 1 and len(adds) == 1 and len(stores) == 1:
-        cb, ct = copies[0]
-        ab, at = adds[0]
-        n_local, i_local = root(ct["args"][2]), root(at["args"][1])
-        len_local = n_local
-        same = n_local is not None and n_local == i_local
-        # definition: min(len(bytes), saturating_sub(buf_cap, k))
-        d = [x for x in f.defs().get(n_local, []) if not x["partial"]] if n_local is not None else []
-        shape = False
-        src_ok = False
-        if len(d) == 1 and d[0]["k"] == "call" and callee_of(d[0]["t"]).endswith(("Ord::min", "::min")):
-            a0, a1 = d[0]["t"]["args"][0], d[0]["t"]["args"][1]
-
-            def is_len(o):
-                for y in sl.sources(o):
-                    if y[0] == "call" and callee_of(y[2]).endswith("::len"):
-                        return root(y[2]["args"][0]) if True else None
-                return None
-
-            def is_capsub(o):
-                for y in sl.sources(o):
-                    if y[0] == "call" and callee_of(y[2]).endswith("::saturating_sub"):
-                        c = op_const(y[2]["args"][1])
-                        if cap in sl.args(y[2]["args"][0]) and c is not None and c.get("int", 0) >= 1:
-                            return True
-                return False
-            la, lb = is_len(a0), is_len(a1)
-            bytes_root = la if la is not None else lb
-            shape = (la is not None and is_capsub(a1)) or (lb is not None and is_capsub(a0))
-            # source = as_ptr of the same slice
-            for y in sl.sources(ct["args"][0]):
-                if y[0] == "call" and callee_of(y[2]).endswith("::as_ptr") and root(y[2]["args"][0]) == bytes_root:
-                    src_ok = True
-        returns = any(d0["k"] == "assign" and d0["rv"]["k"] == "use" and root(d0["rv"]["a"]) == n_local for d0 in f.defs().get(0, []))
-        ok_b = same and shape and src_ok and returns
-        why = "count==NUL offset: %s; min(len, buf_cap.saturating_sub(k>=1)): %s; source is bytes.as_ptr(): %s; returns the count: %s" % (same, shape, src_ok, returns)
-    else:
-        why = "expected exactly one copy_nonoverlapping, one ptr::add and one store through the output pointer (found %d/%d/%d)" % (len(copies), len(adds), len(stores))
+    events = []      # (site, kind, class needed, class found, description)
+    unknown = []
+    counts, nuls = set(), set()
+    out_slices = set()   # locals holding &mut [u8] made from the output pointer
+    first_write_blocks = []
+    for b, i, st in f.stmts():
+        if st["k"] != "assign" or any("ub_checks" in m or "debug_assert" in m for m in st.get("macros", [])):
+            continue
+        dst = st["dst"]
+        if dst["p"] and dst["p"][0] == "deref":
+            if dst["l"] in base:
+                events.append((Site(f, b, i), "store at offset 0", LT, LT, "*out = .."))
+                first_write_blocks.append(b)
+            elif dst["l"] in offs:
+                c = B.of_operand(offs[dst["l"]])
+                events.append((Site(f, b, i), "store at out.add(k)", LT, c, "k is %s" % CLS_NAME[c]))
+                first_write_blocks.append(b)
+                cz = op_const(st["rv"].get("a")) if st["rv"]["k"] == "use" else None
+                if cz is not None and cz.get("int") == 0:
+                    nuls.add(root(offs[dst["l"]]))
+    for b, t in f.calls():
+        cal = callee_of(t)
+        if any("ub_checks" in m or "debug_assert" in m for m in t.get("macros", [])):
+            continue
+        args = t["args"]
+        ptr_args = [k for k, a in enumerate(args) if op_local(a) in base or op_local(a) in offs]
+        if not ptr_args:
+            continue
+        if cal.endswith(PTR_NEUTRAL) or cal.endswith(("::add", "::wrapping_add")):
+            continue
+        if cal in WRITE_COUNT_CALLS:
+            di, ci = WRITE_COUNT_CALLS[cal]
+            if op_local(args[di]) in base:
+                c = B.of_operand(args[ci])
+                events.append((Site(f, b), cal.rsplit("::", 1)[1], LE, c, "count is %s" % CLS_NAME[c]))
+                first_write_blocks.append(b)
+                counts.add(root(args[ci]))
+                # prefix: the source derives from the encoded response, no pointer arithmetic, no range with a start
+                continue
+            if op_local(args[di]) in offs:
+                unknown.append((Site(f, b), "%s into an offset of the output pointer" % cal.rsplit("::", 1)[1]))
+                continue
+            continue   # the output pointer is only the source
+        if cal in WRITE_ONE_CALLS:
+            a0 = op_local(args[0])
+            c = LT if a0 in base else B.of_operand(offs[a0])
+            events.append((Site(f, b), cal.rsplit("::", 1)[1], LT, c, "offset is %s" % CLS_NAME[c]))
+            first_write_blocks.append(b)
+            continue
+        if cal.endswith("slice::raw::from_raw_parts_mut") and op_local(args[0]) in base:
+            c = B.of_operand(args[1])
+            events.append((Site(f, b), "from_raw_parts_mut", LE, c, "slice length is %s" % CLS_NAME[c]))
+            first_write_blocks.append(b)
+            out_slices.add(t["dst"]["l"])
+            continue
+        unknown.append((Site(f, b), "the output pointer is passed to %s" % cal))
+    # slices made from the output pointer: bounds-checked accesses only
+    changed = True
+    while changed:
+        changed = False
+        for l, dfs in defs.items():
+            if l in out_slices:
+                continue
+            for d in dfs:
+                if d["k"] == "assign" and d["rv"]["k"] in ("use", "cast") and op_local(d["rv"]["a"]) in out_slices or \
+                        d["k"] == "assign" and d["rv"]["k"] == "ref" and d["rv"]["place"]["l"] in out_slices and \
+                        all(e == "deref" for e in d["rv"]["place"]["p"]):
+                    out_slices.add(l); changed = True
+    for b, t in f.calls():
+        cal = callee_of(t)
+        if t["args"] and op_local(t["args"][0]) in out_slices:
+            if "unchecked" in cal or cal.endswith(("::as_mut_ptr", "::as_mut_ptr_range")):
+                unknown.append((Site(f, b), "unchecked access %s on the slice over the output buffer" % cal))
+            if cal.endswith("IndexMut<I>>::index_mut") or cal.endswith("::index_mut"):
+                for x in sl.sources(t["args"][1]):
+                    if x[0] == "agg" and "RangeTo" in (x[3].get("adt") or "") and "Inclusive" not in (x[3].get("adt") or ""):
+                        counts.add(root(x[3]["ops"][0]))
+    for b, i, st in f.stmts():
+        if st["k"] == "assign" and st["dst"]["l"] in out_slices:
+            idx = [e["index"] for e in st["dst"]["p"] if isinstance(e, dict) and "index" in e]
+            cz = op_const(st["rv"].get("a")) if st["rv"]["k"] == "use" else None
+            if idx and cz is not None and cz.get("int") == 0:
+                nuls.add(root({"mv": {"l": idx[0], "p": []}}))
+    ctx.floor("R26.b", len(events), 1, "writes through the output buffer")
+    bad = [e for e in events if e[3] > e[2]]
+    # agreement of copied count, NUL position and return value; no redefinition after the first write
+    shared = counts & nuls
+    ret_roots = set()
+    ret_bad = []
+    for d0 in defs.get(0, []):
+        if d0["k"] == "assign" and d0["rv"]["k"] == "use":
+            c = op_const(d0["rv"]["a"])
+            if c is not None:
+                if (c.get("int") or 0) > 0:
+                    ret_bad.append(Site(f, d0["b"], d0["i"]))
+            else:
+                ret_roots.add(root(d0["rv"]["a"]))
+        else:
+            ret_bad.append(Site(f, d0["b"], d0.get("i", TERM)))
+    agree = bool(shared) and ret_roots <= shared and bool(ret_roots)
+    stable = True
+    for r in shared:
+        for d in defs.get(r, []):
+            if any(d["b"] in f.reachable_from(wb) and d["b"] != wb for wb in first_write_blocks):
+                stable = False
+    # prefix of the response
+    prefix = True
+    src_note = ""
+    for b, t in f.calls():
+        cal = callee_of(t)
+        srcop = None
+        if cal in WRITE_COUNT_CALLS and op_local(t["args"][WRITE_COUNT_CALLS[cal][0]]) in base:
+            srcop = t["args"][0] if WRITE_COUNT_CALLS[cal][0] == 1 else t["args"][1]
+        elif cal.endswith("::copy_from_slice") and op_local(t["args"][0]) is not None and \
+                any(x[0] == "call" and callee_of(x[2]).endswith("from_raw_parts_mut") for x in sla.sources(t["args"][0])):
+            srcop = t["args"][1]
+        if srcop is None or cal.endswith("write_bytes"):
+            continue
+        srcs = sla.sources(srcop)
+        from_resp = any(x[0] == "call" and "serde_json::ser::to_string" in callee_of(x[2]) or x[0] == "call" and callee_of(x[2]).endswith("to_string") and
+                        any("serde_json" in callee_of(y[2]) for y in sla.sources(x[2]["args"][0]) if y[0] == "call") for x in srcs) or \
+            any(x[0] == "call" and "serde_json" in callee_of(x[2]) for x in srcs)
+        shifted = [callee_of(x[2]) for x in srcs if x[0] == "call" and callee_of(x[2]).endswith(("::add", "::offset", "::sub", "::split_at", "::skip"))] + \
+                  [x[3].get("adt") for x in srcs if x[0] == "agg" and (x[3].get("adt") or "").endswith(("ops::range::Range", "ops::range::RangeFrom", "ops::range::RangeInclusive"))]
+        if not from_resp or shifted:
+            prefix = False
+            src_note = "source of the copy at %s %s" % (Site(f, b).loc(), "is shifted by %s" % shifted[0] if shifted else "does not derive from the encoded response")
+    ok_b = not bad and not unknown and agree and stable and prefix
+    why = []
+    for e in bad:
+        why.append("%s at %s: %s, needs %s" % (e[1], e[0].loc(), e[4], CLS_NAME[e[2]]))
+    for s_, h in unknown:
+        why.append("%s at %s" % (h, s_.loc()))
+    if not agree:
+        why.append("copied count, NUL position and return value are not the same value (count roots %s, NUL roots %s, returned %s)" % (
+            sorted(counts), sorted(nuls), sorted(ret_roots)))
+    if not stable:
+        why.append("the byte count is redefined after the first write")
+    if not prefix:
+        why.append(src_note)
     ctx.ob("R26.b", "R26.b:searchlite_search:bounded-write", ok_b,
-           "at most buf_cap bytes including the NUL are written, as a prefix of the response; the byte count is returned (%s)" % why if ok_b else
-           "bounded-write shape broken: %s" % why, Site(f, copies[0][0]).loc() if copies else "%s:%s" % (f.file, f.line))
-    # R26.c: writes only after buf_cap != 0, nothing else writes
+           "%d write(s) through the output buffer, all within buf_cap: %s; the NUL sits at the copied count, which is returned" % (
+               len(events), "; ".join("%s (%s)" % (e[1], e[4]) for e in events)) if ok_b else
+           "write through the output buffer not proven within buf_cap: %s" % "; ".join(why),
+           (bad[0][0].loc() if bad else unknown[0][0].loc() if unknown else events[0][0].loc() if events else "%s:%s" % (f.file, f.line)),
+           {"events": [(e[0].loc(), e[1], e[4]) for e in events]})
+    # R26.c
     cap_tests = []
     for b in sorted(f.reachable()):
         t = f.blocks[b]["term"]
         if t["k"] != "switch":
             continue
         l = op_local(t["on"])
-        for d in f.defs().get(l, []):
+        for d in defs.get(l, []):
             if d["k"] == "assign" and d["rv"]["k"] == "binop" and d["rv"]["op"] == "Eq" and cap in sl.args(d["rv"]["a"]) and \
                     (op_const(d["rv"]["b"]) or {}).get("int") == 0:
                 vals = dict(zip(t["values"], t["targets"]))
                 if vals.get(0) is not None:
                     cap_tests.append(vals[0])
-    writes = [Site(f, b) for b, t in copies] + [s for s, h in stores]
-    other = [(s, h) for (s, h) in uses if h in ("write", "copy", "from_raw_parts_mut") or (h == "reborrow" and False)]
-    okc = bool(writes) and all(any(f.dominates_block(ct_, w.b) for ct_ in cap_tests) for w in writes) and not other
+    okc = bool(events) and all(any(f.dominates_block(ct_, e[0].b) for ct_ in cap_tests) for e in events)
     ctx.ob("R26.c", "R26.c:searchlite_search:writes-guarded-by-capacity", okc,
-           "both writes through the output buffer happen only when buf_cap != 0, and nothing else writes through it" if okc else
-           "a write through the output buffer is not dominated by the `buf_cap == 0` early return (or an additional write exists)",
-           writes[0].loc() if writes else "%s:%s" % (f.file, f.line))
+           "every write through the output buffer happens only when buf_cap != 0" if okc else
+           "a write through the output buffer is not dominated by the `buf_cap == 0` early return",
+           events[0][0].loc() if events else "%s:%s" % (f.file, f.line))
     # R26.d
-    bad = []
-    for d0 in f.defs().get(0, []):
-        if d0["k"] == "assign" and d0["rv"]["k"] == "use":
-            c = op_const(d0["rv"]["a"])
-            if c is not None:
-                if c.get("int", 1) > 0:
-                    bad.append(Site(f, d0["b"], d0["i"]))
-            elif root(d0["rv"]["a"]) != len_local:
-                bad.append(Site(f, d0["b"], d0["i"]))
-        elif d0["k"] == "call":
-            bad.append(Site(f, d0["b"]))
-    ctx.ob("R26.d", "R26.d:searchlite_search:early-returns", not bad,
-           "every early return yields the constant 0" if not bad else "return value defined at %s is neither the byte count nor a zero/negative constant" % bad[0].loc(),
-           bad[0].loc() if bad else "%s:%s" % (f.file, f.line))
+    ctx.ob("R26.d", "R26.d:searchlite_search:early-returns", not ret_bad,
+           "every early return yields the constant 0" if not ret_bad else "return value defined at %s is neither the byte count nor a zero/negative constant" % ret_bad[0].loc(),
+           ret_bad[0].loc() if ret_bad else "%s:%s" % (f.file, f.line))
     # other extern fns: constants only
     for p, g in sorted(P.fns.items()):
         if g.crate == FFI and g.kind == "fn" and g.abi and g.abi.startswith("C") and g is not f and g.ret_ty in ("i32", "usize", "isize"):
